@@ -18,6 +18,7 @@ type pairSys struct {
 	tree    bool
 	vol     string
 	kind    string // MemFS | OrefaFS
+	cfg     sideCfg
 	tier    string
 	ops     []fsx.Call // portable form
 	l, w    *side
@@ -32,33 +33,8 @@ func (s *pairSys) Key() string           { return s.lastKey }
 func (s *pairSys) Reset() error {
 	var err error
 
-	if s.l, _, err = newSide(s.kind, false); err != nil {
+	if s.l, s.w, err = newTwins(s.kind, s.vol, s.cfg); err != nil {
 		return err
-	}
-
-	if s.w, _, err = newSide(s.kind, true); err != nil {
-		return err
-	}
-
-	if s.vol != "" {
-		vm, ok := s.w.v.(avfs.VolumeManager)
-		if !ok {
-			return fmt.Errorf("%s has no volume management", s.kind)
-		}
-
-		if err := vm.VolumeAdd(s.vol); err != nil {
-			return fmt.Errorf("VolumeAdd(%s): %v", s.vol, err)
-		}
-
-		s.w.root = s.vol + `\`
-
-		if err := s.w.v.MkdirAll(s.w.root+"tmp", 0o777); err != nil {
-			return fmt.Errorf("MkdirAll on %s: %v", s.vol, err)
-		}
-
-		if _, r := s.w.do(fsx.Call{Op: "Chdir", A: "/"}); r.Kind != "ok" {
-			return fmt.Errorf("Chdir to %s: %s", s.w.root, r.Kind)
-		}
 	}
 
 	if s.tree {
@@ -67,18 +43,60 @@ func (s *pairSys) Reset() error {
 			{Op: "WriteFile", A: "/a/a", Data: "hello", Perm: 0o644},
 			{Op: "Link", A: "/a/a", B: "/b"},
 		} {
-			if _, r := s.l.do(c); r.Kind != "ok" {
-				return fmt.Errorf("setup (Linux-typed) %s: %s", c, r.Kind)
-			}
-
-			if _, r := s.w.do(c); r.Kind != "ok" {
-				return fmt.Errorf("setup (Windows-typed) %s: %s", c, r.Kind)
+			if err := bothDo(s.l, s.w, c); err != nil {
+				return err
 			}
 		}
 	}
 
 	ld, _ := s.l.dump()
 	s.lastKey = keyOf(ld, s.l.cwd())
+
+	return nil
+}
+
+// newTwins builds a fresh Linux-typed and a fresh Windows-typed instance of one
+// kind; with vol != "" the Windows-typed one works on that added volume.
+func newTwins(kind, vol string, cfg sideCfg) (l, w *side, err error) {
+	if l, _, err = newSideCfg(kind, false, cfg); err != nil {
+		return nil, nil, err
+	}
+
+	if w, _, err = newSideCfg(kind, true, cfg); err != nil {
+		return nil, nil, err
+	}
+
+	if vol != "" {
+		vm, ok := w.v.(avfs.VolumeManager)
+		if !ok {
+			return nil, nil, fmt.Errorf("%s has no volume management", kind)
+		}
+
+		if err := vm.VolumeAdd(vol); err != nil {
+			return nil, nil, fmt.Errorf("VolumeAdd(%s): %v", vol, err)
+		}
+
+		w.root = vol + `\`
+
+		if err := w.v.MkdirAll(w.root+"tmp", 0o777); err != nil {
+			return nil, nil, fmt.Errorf("MkdirAll on %s: %v", vol, err)
+		}
+
+		if _, r := w.do(fsx.Call{Op: "Chdir", A: "/"}); r.Kind != "ok" {
+			return nil, nil, fmt.Errorf("Chdir to %s: %s", w.root, r.Kind)
+		}
+	}
+
+	return l, w, nil
+}
+
+// bothDo applies a set-up call that has to succeed on both instances.
+func bothDo(l, w *side, c fsx.Call) error {
+	for _, sd := range []*side{l, w} {
+		if cc, r := sd.do(c); r.Kind != "ok" {
+			return fmt.Errorf("setup (%s-typed %s) %s: %s %s", sd.osName(), sd.kind, cc, r.Kind, r.Msg)
+		}
+	}
 
 	return nil
 }
@@ -131,13 +149,16 @@ func (s *pairSys) Step(op int) bfs.StepResult {
 
 	add := func(kind, what string) {
 		b, _ := json.Marshal(det)
-		viols = append(viols, bfs.Viol{
-			Sig: map[string]string{
-				"fs": s.kind, "part": "pair", "call": c.Op, "variant": variantOf(c), "operands": operands,
-				"linux": lr.Kind, "windows": wr.Kind, "kind": kind, "what": what,
-			},
-			Detail: string(b),
-		})
+		sig := map[string]string{
+			"fs": s.kind, "part": "pair", "call": c.Op, "variant": variantOf(c), "operands": operands,
+			"linux": lr.Kind, "windows": wr.Kind, "kind": kind, "what": what,
+		}
+
+		if cs := s.cfg.String(); cs != "" {
+			sig["config"] = cs
+		}
+
+		viols = append(viols, bfs.Viol{Sig: sig, Detail: string(b)})
 	}
 
 	lAbn := lr.Kind == "PANIC" || lr.Kind == "DEADLOCK"
@@ -217,7 +238,16 @@ func (s *pairSys) Step(op int) bfs.StepResult {
 // and owners are never part of it.
 func (s *pairSys) values(c fsx.Call, lr, wr result) (lv, wv string, compare bool) {
 	switch c.Op {
-	case "ReadDir", "ReadFile":
+	case "ReadDir":
+		// the content of the home directories is the layout of the OS (on the
+		// Windows type the temporary directory lives below them)
+		if c.A == "$HOME" || c.A == "$HOMEUSER" {
+			return "", "", false
+		}
+
+		return lr.Val, wr.Val, true
+	case "ReadFile", "Glob", "WalkDir":
+		// the paths of Glob and WalkDir were made portable one by one (rawCall)
 		return lr.Val, wr.Val, true
 	case "Readlink":
 		// an absolute target is spelled with the instance's volume and separator
@@ -234,6 +264,11 @@ func (s *pairSys) values(c fsx.Call, lr, wr result) (lv, wv string, compare bool
 		return s.l.normPath(lr.Val), s.w.normPath(wr.Val), true
 	case "Stat", "Lstat":
 		lv, wv = statVal(lr.Val), statVal(wr.Val)
+
+		if isRolePath(c.A) && !strings.Contains(c.A, "/") {
+			// the name of a default location is the OS's own (tmp, Temp)
+			lv, wv = c.A+lv[strings.Index(lv+" ", " "):], c.A+wv[strings.Index(wv+" ", " "):]
+		}
 
 		// the size of a symbolic link is the length of its target, which is not
 		// comparable when the target is absolute (volume on one side only)
@@ -291,6 +326,8 @@ func variantOf(c fsx.Call) string {
 		return "pattern " + c.B
 	case "Symlink":
 		return "target " + c.A
+	case "Glob":
+		return "pattern " + c.A
 	}
 
 	return ""
@@ -334,10 +371,22 @@ func operandClass(c fsx.Call, dump []string, cwd string, rootOK bool) string {
 	}
 
 	cls := func(p string) (string, string) {
+		if p == "" {
+			return "default-dir", ""
+		}
+
 		abs := lexAbs(cwd, p)
 		note := ""
 
-		if !strings.HasPrefix(p, "/") {
+		switch {
+		case isRolePath(p): // a default location: an entry of the portable dump under its role
+			r, _ := roleOf(p)
+			abs, note = "/"+p, "role "+r+":"
+
+			if cwd != "" && cwd != "/" {
+				return note + ti.Class(abs) + " cwd=" + cwd, abs
+			}
+		case !strings.HasPrefix(p, "/"):
 			note = "rel:"
 		}
 
@@ -360,6 +409,30 @@ func operandClass(c fsx.Call, dump []string, cwd string, rootOK bool) string {
 		cb, _ := cls(c.B)
 
 		return cb
+	case "Glob":
+		// the pattern is in the variant; the operand is the directory its first
+		// wildcard element is looked up in
+		elems := strings.Split(c.A, "/")
+		for i, e := range elems {
+			if strings.ContainsAny(e, "*?[") {
+				elems = elems[:i]
+
+				break
+			}
+		}
+
+		dir := strings.Join(elems, "/")
+		if dir == "" && strings.HasPrefix(c.A, "/") {
+			dir = "/"
+		}
+
+		if dir == "" {
+			dir = "."
+		}
+
+		cd, _ := cls(dir)
+
+		return "in " + cd
 	}
 
 	ca, _ := cls(c.A)
@@ -378,7 +451,7 @@ func sameClass(dump []string, a, b string) bool {
 // buildOps is the alphabet of part (C), in portable form. No Chown, Lchown,
 // Chmod (documented as OS-specific); absolute link targets are written in
 // portable form and translated per instance.
-func buildOps(kind, tier string) []fsx.Call {
+func buildOps(kind, tier string, cfg sideCfg) []fsx.Call {
 	abs := []string{"/", "/a", "/b", "/a/a", "/a/b", "/b/a", "/b/b"}
 	rel := []string{"a", "b"}
 
@@ -406,7 +479,8 @@ func buildOps(kind, tier string) []fsx.Call {
 
 	var ops []fsx.Call
 
-	for _, p := range all {
+	// single: the one-path calls on p
+	single := func(p string, chdir bool) {
 		ops = append(ops,
 			fsx.Call{Op: "Mkdir", A: p, Perm: 0o755},
 			fsx.Call{Op: "MkdirAll", A: p, Perm: 0o755},
@@ -431,7 +505,13 @@ func buildOps(kind, tier string) []fsx.Call {
 			fsx.Call{Op: "Lstat", A: p},
 			fsx.Call{Op: "ReadDir", A: p},
 			fsx.Call{Op: "ReadFile", A: p},
-			fsx.Call{Op: "Chdir", A: p},
+		)
+
+		if chdir {
+			ops = append(ops, fsx.Call{Op: "Chdir", A: p})
+		}
+
+		ops = append(ops,
 			fsx.Call{Op: "Chtimes", A: p, N: 60},
 			fsx.Call{Op: "CreateTemp", A: p, B: "t*"},
 			fsx.Call{Op: "MkdirTemp", A: p, B: "t*"},
@@ -443,6 +523,24 @@ func buildOps(kind, tier string) []fsx.Call {
 				fsx.Call{Op: "EvalSymlinks", A: p},
 			)
 		}
+	}
+
+	for _, p := range all {
+		single(p, true)
+	}
+
+	if cfg.sysDirs {
+		// RemoveAll of the root removes the default locations, which are nested
+		// on one type only: what a later MkdirAll of one of them brings back differs
+		kept := ops[:0]
+
+		for _, c := range ops {
+			if c.Op != "RemoveAll" || (c.A != "/" && c.A != "..") {
+				kept = append(kept, c)
+			}
+		}
+
+		ops = kept
 	}
 
 	for _, p := range all {
@@ -470,6 +568,69 @@ func buildOps(kind, tier string) []fsx.Call {
 		}
 	}
 
+	// Pattern- and root-taking calls. General lesson: code that takes a path
+	// apart (volume, root, directory, last element) has a case of its own for
+	// every place the cut can fall; the operand whose directory part IS the
+	// volume root (`C:\x*`) is the one a tree of test directories never
+	// produces. So: a wildcard directly below the root, in the first, a middle
+	// and the last element, absolute and relative, and the walk rooted at the
+	// root itself, in every reached state (the exhaustive pattern set on a
+	// deeper tree is part (D), patterns.go).
+	globs := []string{"/*", "/a*", "/?", "/*/*", "/[ab]/*", "/*/a", "/a/*", "/*/*/*", "/a/*/a", "*", "*/*", "a/*"}
+	walks := []string{"/", "/a", "/b", "a", "."}
+
+	if tier == "thorough" {
+		globs = append(globs, "/[a-b]", "/?/?", "/b/*", "/*/b", "/*/a/*", "b/*", "*/a", "../*")
+		walks = append(walks, "/a/a", "b", "..")
+	}
+
+	for _, g := range globs {
+		ops = append(ops, fsx.Call{Op: "Glob", A: g})
+	}
+
+	for _, w := range walks {
+		ops = append(ops, fsx.Call{Op: "WalkDir", A: w})
+	}
+
+	// Default locations (only in the default configuration: elsewhere the
+	// harness's /tmp is not what TempDir() names). General lesson: a call with
+	// a default ("" = the temporary directory of the current user) is a call
+	// on a path that only the library knows; it has to be in the alphabet as
+	// such, together with the calls on the location spelled by the library's
+	// own helper. The current directory is never set inside a default location
+	// and no link is created there: their depth below the root differs between
+	// the types by documentation, so ".." from inside is not portable.
+	if cfg.sysDirs {
+		ops = append(ops,
+			fsx.Call{Op: "CreateTemp", A: "", B: "t*"},
+			fsx.Call{Op: "MkdirTemp", A: "", B: "t*"},
+			fsx.Call{Op: "Glob", A: "$TMP/*"},
+			fsx.Call{Op: "WalkDir", A: "$TMP"},
+		)
+
+		single("$TMP", false)
+		single("$TMP/a", false)
+
+		// the home directories hold the other default locations on one type
+		// only: no call that removes or replaces them
+		for _, p := range allRoles[1:] {
+			if p == "$HOMEUSER" && kind != "MemFS" {
+				continue // no identity manager: no user whose home would exist
+			}
+
+			ops = append(ops,
+				fsx.Call{Op: "Mkdir", A: p, Perm: 0o755},
+				fsx.Call{Op: "MkdirAll", A: p, Perm: 0o755},
+				fsx.Call{Op: "OpenFile", A: p, Flag: os.O_RDONLY},
+				fsx.Call{Op: "OpenFile", A: p, Flag: os.O_WRONLY},
+				fsx.Call{Op: "Stat", A: p},
+				fsx.Call{Op: "Lstat", A: p},
+				fsx.Call{Op: "ReadDir", A: p},
+				fsx.Call{Op: "ReadFile", A: p},
+			)
+		}
+	}
+
 	return ops
 }
 
@@ -477,9 +638,11 @@ func pairFactory(tier string) func(string) bfs.System {
 	return func(name string) bfs.System {
 		setSeq()
 
-		// name = kind[@D][+tree]: "@D" puts the Windows-typed side on an added
+		// name = kind[@D][+tree][+sys]: "@D" puts the Windows-typed side on an added
 		// volume D:, "+tree" starts from a non-initial state (/a/{a}, /b second
-		// name of /a/a)
+		// name of /a/a), "+sys" is the default configuration of the emulated OS
+		// (system directories of the constructor, MemFS: identity manager of the
+		// same OS type)
 		ps := &pairSys{name: name, tier: tier}
 		ps.kind = name
 
@@ -493,7 +656,11 @@ func pairFactory(tier string) func(string) bfs.System {
 			ps.vol = "D:"
 		}
 
-		ps.ops = buildOps(ps.kind, tier)
+		if strings.Contains(name, "+sys") {
+			ps.cfg = sideCfg{sysDirs: true, idmSame: ps.kind == "MemFS"}
+		}
+
+		ps.ops = buildOps(ps.kind, tier, ps.cfg)
 
 		return ps
 	}
